@@ -448,7 +448,9 @@ def processTrace (variant : Variant) (name : String) (lines : Array String) : IO
       kind == "read" && (match warmAt.get? (cacheOfOp k) with
         | some p => (match lastWacq with | some q => q < p | none => true)
         | none => false)
-    let ungranted := hangs.filter fun (_, kind, st) => kind == "write" && st == "pend"
+    -- write requests that were made and never granted: pending ones, and ones whose endpoint was
+    -- cut after the request had left (the owner processes the request of a dead writer all the same)
+    let ungranted := ops.filter fun (_, o) => o.write && o.start.isSome && o.acq.isNone
     let others := hangs.filter fun (_, kind, st) => kind == "write" && st != "pend"
     let shape :=
       if !staleReaders.isEmpty && !ungranted.isEmpty && others.isEmpty then
